@@ -57,7 +57,7 @@ class Ctx:
         self.repo = Repo(root)
         from .fields import canonicalise_fields, canonicalise_methods
         self.field_renames = canonicalise_fields(self.repo) + canonicalise_methods(self.repo)
-        self.inlined = inline_fresh_helpers(self.repo)
+        self.inlined = inline_fresh_helpers(self.repo) + inline_fresh_context_managers(self.repo)
         resolve_aliases(self.repo)
         self.hier = Hierarchy(self.repo)
         self.summaries = Summaries(self.repo)
@@ -507,6 +507,115 @@ def _may_fall_through(stmts) -> bool:
     return True
 
 
+def inline_fresh_context_managers(repo: Repo) -> list[str]:
+    """`with h(args): body` where h is a generator-based context manager (`@contextmanager` / `@asynccontextmanager`) that did not
+    exist in the reference tree, is a module-level private function with exactly one `yield` standing as a statement, and is used only
+    in such `with` statements: the statement is replaced by h's body with the `yield` replaced by `body` (parameters substituted,
+    locals renamed, `as name` bound to the yielded value).  An exception leaving `body` is thrown into the generator at the `yield`,
+    so the generator's try/except/finally around the yield apply to the body exactly as they do once it stands there."""
+    from .source import clone
+    known = _known_module_functions()
+    done = []
+    if known is None:
+        return done
+    serial = 0
+    for f in list(repo.all_funcs):
+        h = f.node
+        if f.cls is not None or f.parent is not None or f.module.endswith("_trio.py") or not h.name.startswith("_") or h.name in known.get(f.module, ()):
+            continue
+        decos = [ast.unparse(d).split(".")[-1] for d in h.decorator_list]
+        if decos not in (["contextmanager"], ["asynccontextmanager"]):
+            continue
+        is_async = decos == ["asynccontextmanager"]
+        body = [s_ for s_ in h.body if not (isinstance(s_, ast.Expr) and isinstance(s_.value, ast.Constant) and isinstance(s_.value.value, str))]
+        yields = [x for s_ in body for x in ast.walk(s_) if isinstance(x, (ast.Yield, ast.YieldFrom))]
+        if len(yields) != 1 or not isinstance(yields[0], ast.Yield) or not isinstance(getattr(yields[0], "_parent", None), ast.Expr):
+            continue
+        if any(isinstance(x, (ast.FunctionDef, ast.AsyncFunctionDef, ast.ClassDef, ast.Lambda, ast.Return, ast.Global, ast.Nonlocal)) for s_ in body for x in ast.walk(s_)):
+            continue
+        a = h.args
+        if a.vararg or a.kwarg or a.kwonlyargs or a.defaults:
+            continue
+        params = [x.arg for x in a.posonlyargs + a.args]
+        tree = repo.modules[f.module]
+        uses = [n for n in ast.walk(tree) if isinstance(n, ast.Name) and n.id == h.name and isinstance(n.ctx, ast.Load)]
+        plans = []
+        ok = bool(uses)
+        for nm in uses:
+            call = getattr(nm, "_parent", None)
+            item = getattr(call, "_parent", None)
+            w = getattr(item, "_parent", None)
+            if not (isinstance(call, ast.Call) and call.func is nm and isinstance(item, ast.withitem) and item.context_expr is call
+                    and isinstance(w, ast.AsyncWith if is_async else ast.With) and len(w.items) == 1
+                    and (item.optional_vars is None or isinstance(item.optional_vars, ast.Name))
+                    and len(call.args) == len(params) and not call.keywords and all(_simple_arg(v) for v in call.args)
+                    and not any(x is w for x in ast.walk(h))):
+                ok = False
+                break
+            plans.append((w, item, call))
+        if not ok:
+            continue
+        stored = {x.id for s_ in body for x in ast.walk(s_) if isinstance(x, ast.Name) and isinstance(x.ctx, (ast.Store, ast.Del))}
+        stored |= {hh.name for s_ in body for hh in ast.walk(s_) if isinstance(hh, ast.ExceptHandler) and hh.name}
+        if stored & set(params):
+            continue
+        for w, item, call in plans:
+            serial += 1
+            mapping = dict(zip(params, call.args))
+            renames = {v: f"{v}__{h.name.strip('_')}_cm{serial}" for v in stored}
+            new = []
+            for s_ in body:
+                c = clone(s_)
+                for hh in ast.walk(c):
+                    if isinstance(hh, ast.ExceptHandler) and hh.name in renames:
+                        hh.name = renames[hh.name]
+                new.append(_ParamSubst(mapping, renames).visit(c))
+
+            def put(stmts):
+                out = []
+                for s2 in stmts:
+                    if isinstance(s2, ast.Expr) and isinstance(s2.value, ast.Yield):
+                        if item.optional_vars is not None:
+                            out.append(ast.copy_location(ast.Assign(targets=[ast.Name(id=item.optional_vars.id, ctx=ast.Store())],
+                                                                    value=s2.value.value or ast.Constant(None)), w))
+                        out.extend(w.body)
+                        continue
+                    for fld in ("body", "orelse", "finalbody"):
+                        v = getattr(s2, fld, None)
+                        if isinstance(v, list) and v and isinstance(v[0], ast.stmt):
+                            setattr(s2, fld, put(v))
+                    if isinstance(s2, ast.Try):
+                        for hh in s2.handlers:
+                            hh.body = put(hh.body)
+                    out.append(s2)
+                return out
+
+            new = put(new)
+            holder = getattr(w, "_parent", None)
+            for fld in ("body", "orelse", "finalbody"):
+                blk_ = getattr(holder, fld, None)
+                if isinstance(blk_, list) and w in blk_:
+                    i = blk_.index(w)
+                    blk_[i:i + 1] = new
+                    for x in new:
+                        ast.copy_location(x, w) if not hasattr(x, "lineno") else None
+                        ast.fix_missing_locations(x)
+                    done.append(f"{f.qual} (context manager) -> {getattr(repo.func_of(holder), 'qual', '?')}")
+                    break
+            caller = repo.func_of(holder)
+            root = caller.node if caller is not None else tree
+            for par_ in ast.walk(root):
+                for ch in ast.iter_child_nodes(par_):
+                    ch._parent = par_
+        dead = getattr(repo, "dead_nodes", None)
+        if dead is None:
+            dead = repo.dead_nodes = set()
+        dead.add(id(h))
+        repo.all_funcs = [x for x in repo.all_funcs if x is not f and x.parent is not f]
+        repo.funcs[f.qual] = [x for x in repo.funcs.get(f.qual, []) if x is not f]
+    return done
+
+
 def _known_methods():
     import json
     import os
@@ -514,6 +623,19 @@ def _known_methods():
     if not os.path.exists(path):
         return None
     return {k: {m.split("@")[0] for m in v} for k, v in json.load(open(path)).items()}
+
+
+def _known_classes():
+    """(classes of the reference tree, their public method names)"""
+    import json
+    import os
+    d = os.path.dirname(os.path.abspath(__file__))
+    try:
+        fields = json.load(open(os.path.join(d, "fields.json")))
+        pub = json.load(open(os.path.join(d, "public_methods.json")))
+    except OSError:
+        return {}, {}
+    return fields, {k: set(v) for k, v in pub.items()}
 
 
 def _known_module_functions():
@@ -539,6 +661,7 @@ def _helper_candidates(repo: Repo, prot: set):
                 nocc.setdefault((rel, n.id), []).append(n)
     known = _known_module_functions()
     kmeth = _known_methods()
+    kfields, kpublic = _known_classes()
     ndefs: dict[str, int] = {}
     for f_ in repo.all_funcs:
         if not f_.module.endswith("_trio.py"):
@@ -549,9 +672,13 @@ def _helper_candidates(repo: Repo, prot: set):
             continue
         h = f.node
         name = h.name
-        if not name.startswith("_") or name.startswith("__") or name in prot:
-            continue
         is_method = f.cls is not None
+        # private helpers; also any method that did not exist in the reference tree on a *private* class (a state record that
+        # was given behaviour: `_MemoryObjectStreamState.release_send_channel`)
+        fresh_on_private_cls = is_method and f.cls.startswith("_") and kmeth is not None and f"{f.module}::{f.cls}" in kfields \
+            and name not in kmeth.get(f"{f.module}::{f.cls}", ()) and name not in kpublic.get(f"{f.module}::{f.cls}", ())
+        if name.startswith("__") or name in prot or not (name.startswith("_") or fresh_on_private_cls):
+            continue
         if not is_method:
             # module-level functions: only helpers that did not exist in the tree the rules were written against ("extract function")
             if known is None or name in known.get(f.module, ()) or name in occ:
@@ -593,7 +720,7 @@ def _helper_candidates(repo: Repo, prot: set):
                 if not own:
                     # "move method": a private method that did not exist in the reference tree, defined once in the package and
                     # called through a pure attribute chain (`self._state._release()`): spliced in with `self` := the receiver
-                    fresh = kmeth is not None and name not in kmeth.get(f"{f.module}::{f.cls}", ())
+                    fresh = kmeth is not None and name not in kmeth.get(f"{f.module}::{f.cls}", ()) and name not in kpublic.get(f"{f.module}::{f.cls}", ())
                     chain = at.value
                     while isinstance(chain, ast.Attribute):
                         chain = chain.value
@@ -610,7 +737,7 @@ def _helper_candidates(repo: Repo, prot: set):
                 outer, par = par, getattr(par, "_parent", None)
             st = par
             neg = False
-            if isinstance(st, ast.UnaryOp) and isinstance(st.op, ast.Not) and isinstance(getattr(st, "_parent", None), (ast.If,)) and st._parent.test is st:
+            if isinstance(st, ast.UnaryOp) and isinstance(st.op, ast.Not) and isinstance(getattr(st, "_parent", None), (ast.If, ast.While)) and st._parent.test is st:
                 neg, outer, st = True, st, st._parent
             single_expr = len(body) == 1 and isinstance(body[0], ast.Return) and body[0].value is not None and not awaited
             if single_expr:
@@ -626,6 +753,8 @@ def _helper_candidates(repo: Repo, prot: set):
                 shape = "return"
             elif isinstance(st, ast.If) and st.test is outer:
                 shape = "test"
+            elif isinstance(st, ast.While) and st.test is outer and not st.orelse:
+                shape = "wtest"          # `while h(): body` is `while True: r = h(); if not r: break; body`
             else:
                 ok = False
                 break
@@ -705,7 +834,7 @@ def inline_fresh_helpers(repo: Repo, max_inlines: int = 200) -> list[str]:
             if not ok_all or not all(_simple_arg(v) for v in mapping.values()) or (stored & set(mapping)):
                 ok_all = False
                 break
-            if shape in ("assign", "return", "test", "inline-expr") and not any(r.value is not None for r in rets):
+            if shape in ("assign", "return", "test", "wtest", "inline-expr") and not any(r.value is not None for r in rets):
                 ok_all = False
                 break
             bindings.append(mapping)
@@ -758,7 +887,7 @@ def inline_fresh_helpers(repo: Repo, max_inlines: int = 200) -> list[str]:
                     if isinstance(hh, ast.ExceptHandler) and hh.name in renames:
                         hh.name = renames[hh.name]
                 new.append(_ParamSubst(mapping, renames).visit(c))
-            need_res = shape in ("assign", "return", "test")
+            need_res = shape in ("assign", "return", "test", "wtest")
             use_block = bool(early)
             direct = None
             if not early and last_ret is not None and last_ret.value is not None and shape in ("assign", "return"):
@@ -779,7 +908,7 @@ def inline_fresh_helpers(repo: Repo, max_inlines: int = 200) -> list[str]:
                         out.append(s2 if s2.value is not None else ast.copy_location(ast.Return(ast.Constant(None)), s2))
                         continue
                     if isinstance(s2, ast.Return):
-                        if need_res and s2.value is not None and shape == "test" and not isinstance(s2.value, ast.Constant):
+                        if need_res and s2.value is not None and shape in ("test", "wtest") and not isinstance(s2.value, ast.Constant):
                             # the result is only ever tested: `res = <cond>` is written `if <cond>: res = True else: res = False`, so
                             # that the caller's branch on res carries the facts of <cond> (a "decide" helper returning a bool)
                             mk = lambda v_: ast.copy_location(ast.Assign(targets=[ast.Name(id=res, ctx=ast.Store())], value=ast.Constant(v_)), s2)
@@ -836,6 +965,16 @@ def inline_fresh_helpers(repo: Repo, max_inlines: int = 200) -> list[str]:
                 nm = ast.Name(id=res, ctx=ast.Load())
                 st.test = ast.copy_location(ast.UnaryOp(op=ast.Not(), operand=nm), t) if isinstance(t, ast.UnaryOp) else ast.copy_location(nm, t)
                 new.append(st)
+            if shape == "wtest":
+                t = st.test
+                nm = ast.Name(id=res, ctx=ast.Load())
+                leave = nm if isinstance(t, ast.UnaryOp) else ast.UnaryOp(op=ast.Not(), operand=nm)
+                brk = ast.copy_location(ast.If(test=ast.copy_location(leave, t), body=[ast.copy_location(ast.Break(), t)], orelse=[]), t)
+                st.test = ast.copy_location(ast.Constant(True), t)
+                st.body = new + [brk] + st.body
+                for x in st.body:
+                    ast.fix_missing_locations(x)
+                new = [st]
             holder = getattr(st, "_parent", None)
             spliced = False
             for fld in ("body", "orelse", "finalbody"):
@@ -987,6 +1126,59 @@ def _inline_single_use_temps(fn) -> bool:
     return changed
 
 
+def _canonical_snapshot_pop_loops(fn) -> bool:
+    """`for k in list(Q): v = Q.pop(k); BODY` over a mapping Q that BODY does not write is the keyed spelling of the head-take loop
+    `while Q: k, v = Q.popitem(last=False); BODY`: the snapshot lists the keys in insertion order, every iteration removes exactly the
+    key it was given, nothing else touches Q in between (one synchronous section), so the pairs come out in the same order and an early
+    `break` / `return` leaves the same remainder.  Rewritten in place to the popitem form."""
+    changed = False
+    for n in own_walk(fn):
+        if not (isinstance(n, ast.For) and isinstance(n.target, ast.Name) and not n.orelse and n.body):
+            continue
+        it = n.iter
+        if not (isinstance(it, ast.Call) and isinstance(it.func, ast.Name) and it.func.id in ("list", "tuple") and len(it.args) == 1 and not it.keywords):
+            continue
+        q = it.args[0]
+        if isinstance(q, ast.Call) and isinstance(q.func, ast.Attribute) and q.func.attr == "keys" and not q.args:
+            q = q.func.value
+        if not (isinstance(q, (ast.Attribute, ast.Name)) and _simple_arg(q)):
+            continue
+        qs = ast.unparse(q)
+        first = n.body[0]
+        if not (isinstance(first, ast.Assign) and len(first.targets) == 1 and isinstance(first.targets[0], ast.Name)
+                and isinstance(first.value, ast.Call) and isinstance(first.value.func, ast.Attribute) and first.value.func.attr == "pop"
+                and ast.unparse(first.value.func.value) == qs and len(first.value.args) == 1 and not first.value.keywords
+                and isinstance(first.value.args[0], ast.Name) and first.value.args[0].id == n.target.id):
+            continue
+        rest = n.body[1:]
+        touches = False
+        for s_ in rest:
+            for x in ast.walk(s_):
+                if isinstance(x, (ast.Attribute, ast.Name)) and ast.unparse(x) == qs:
+                    par = getattr(x, "_parent", None)
+                    if not (isinstance(par, ast.Attribute) and False):
+                        touches = True
+                if isinstance(x, (ast.Await, ast.Yield, ast.YieldFrom)):
+                    touches = True
+                if isinstance(x, ast.Call) and isinstance(x.func, ast.Attribute) and isinstance(x.func.value, ast.Name) and x.func.value.id == "self":
+                    touches = True      # an own-method call may write the mapping
+        if touches:
+            continue
+        take = ast.copy_location(ast.Assign(
+            targets=[ast.Tuple(elts=[ast.Name(id=n.target.id, ctx=ast.Store()), ast.Name(id=first.targets[0].id, ctx=ast.Store())], ctx=ast.Store())],
+            value=ast.Call(func=ast.Attribute(value=q, attr="popitem", ctx=ast.Load()), args=[], keywords=[ast.keyword(arg="last", value=ast.Constant(False))])), first)
+        loop = ast.copy_location(ast.While(test=ast.copy_location(q, n), body=[take] + rest, orelse=[]), n)
+        ast.fix_missing_locations(loop)
+        holder = getattr(n, "_parent", None)
+        for fld in ("body", "orelse", "finalbody"):
+            blk = getattr(holder, fld, None)
+            if isinstance(blk, list) and n in blk:
+                blk[blk.index(n)] = loop
+                changed = True
+                break
+    return changed
+
+
 def _expand_conditional_expressions(fn) -> bool:
     """`x = A if c else B` / `return A if c else B` are rewritten in place to the if/else statement form, so that the two spellings are
     one construct for the CFG (a test node with two branches) and for the rules"""
@@ -1030,6 +1222,11 @@ def resolve_aliases(repo: Repo):
             for par in ast.walk(f.node):
                 for chd in ast.iter_child_nodes(par):
                     chd._parent = par
+    for f in repo.all_funcs:
+        if _canonical_snapshot_pop_loops(f.node):
+            for par in ast.walk(f.node):
+                for ch in ast.iter_child_nodes(par):
+                    ch._parent = par
     for f in repo.all_funcs:
         if _inline_single_use_temps(f.node):
             for par in ast.walk(f.node):
